@@ -170,7 +170,13 @@ func newExec(prog *ssa.Program, pkg *ssa.Package, cfg *Config) *Exec {
 	ex.solver = newSolver(cfg.Solver, pt)
 	ex.active = ex.solver
 	if cfg.CrossSolver != "" {
-		ex.solver2 = newSolver(cfg.CrossSolver, cfg.Timeout)
+		// the second opinion is bounded: z3 is one to two orders of magnitude slower than cvc5 on the floating-point
+		// obligations (DESIGN App. A); a cross-check that does not finish is recorded as such, not as agreement
+		ct := cfg.Timeout
+		if ct > 30*time.Second {
+			ct = 30 * time.Second
+		}
+		ex.solver2 = newSolver(cfg.CrossSolver, ct)
 	}
 	return ex
 }
